@@ -8,3 +8,6 @@ import Solvor.Pack.Theorems
 #print axioms Solvor.Pack.validPack_lower_bound
 #print axioms Solvor.Pack.binpack_valid
 #print axioms Solvor.Pack.knapsack_dp_eq_knapBest
+#print axioms Solvor.Pack.knapsack_scaled_optimal
+#print axioms Solvor.Pack.greedy_fallback_valid
+#print axioms Solvor.Pack.pack_excluded
